@@ -6,6 +6,7 @@
 #include <Eigen/Core>
 #include <Eigen/Geometry>
 #include <cstring>
+#include <limits>
 #include <tuple>
 #include <type_traits>
 
@@ -107,18 +108,25 @@ struct Layout<smooth::Galilei<S>> {
     else return v.so3();
   }
 };
-template<class S>
-struct Layout<smooth::SE_K_3<S, 2>> {
-  // [p0 (3) p1 (3) qx qy qz qw]
-  static constexpr int n = 4;
-  static constexpr PartDesc parts[4] = {{"r3<0>", 0, 3}, {"r3<1>", 3, 3}, {"so3", 6, 4}, {"r3(1)", 3, 3}};
+template<class S, int K>
+struct Layout<smooth::SE_K_3<S, K>> {
+  // [p0 (3) ... p(K-1) (3) qx qy qz qw]; the last entry is the run-time accessor r3(K-1)
+  static constexpr int n = K + 2;
+  static constexpr auto make_parts() {
+    std::array<PartDesc, (std::size_t)(K + 2)> p{};
+    constexpr const char* names[] = {"r3<0>", "r3<1>", "r3<2>", "r3<3>", "r3<4>"};
+    for (int i = 0; i < K; ++i) p[(std::size_t)i] = PartDesc{names[i], 3 * i, 3};
+    p[(std::size_t)K] = PartDesc{"so3", 3 * K, 4};
+    p[(std::size_t)K + 1] = PartDesc{"r3(K-1)", 3 * (K - 1), 3};
+    return p;
+  }
+  static constexpr auto parts = make_parts();
   static constexpr int action_dim = 0;
   template<int I, class V>
   static auto get(V& v) {
-    if constexpr (I == 0) return v.template r3<0>();
-    else if constexpr (I == 1) return v.template r3<1>();
-    else if constexpr (I == 2) return v.so3();
-    else return v.r3(1);
+    if constexpr (I < K) return v.template r3<I>();
+    else if constexpr (I == K) return v.so3();
+    else return v.r3(K - 1);
   }
 };
 template<class... Gs>
@@ -487,6 +495,10 @@ struct T16 {
               const G tmp(s.so3(), s.template r3<0>(), s.template r3<1>());
               with_mut(c, [&](auto& m) { m = tmp; });
               done = true;
+            } else if constexpr (requires { G(s.so3(), s.template r3<0>(), s.template r3<1>(), s.template r3<2>()); }) {
+              const G tmp(s.so3(), s.template r3<0>(), s.template r3<1>(), s.template r3<2>());
+              with_mut(c, [&](auto& m) { m = tmp; });
+              done = true;
             }
           });
           if (done) {
@@ -767,10 +779,27 @@ struct T16 {
     }
   }
 
+  // contents classes (salt % 10): generic elements, and the contents a library routine never
+  // produces but a caller-owned buffer may hold: identity, all signs flipped (negative w),
+  // un-normalised, a coefficient exactly zero, a half-turn, NaN / infinity, denormal-small
   static void make_elem(void* dst, uint64_t salt) {
     In in{salt};
-    const G e = rand_elem<G>(in);
-    store(static_cast<S*>(dst), e);
+    G e = rand_elem<G>(in);
+    S* out = static_cast<S*>(dst);
+    const int cls = (int)(salt % 10);
+    if (cls == 3) e.setIdentity();
+    if (cls == 6) {
+      // exp of a tangent whose rotational entries sum up to an angle of about pi
+      auto a = rand_vec<S, G::Dof>(in, 1.0);
+      a *= static_cast<S>(3.14159265358979323846 / (a.norm() > S(0) ? a.norm() : S(1)));
+      e = G::exp(a);
+    }
+    store(out, e);
+    if (cls == 4) for (int i = 0; i < N; ++i) out[i] = -out[i];
+    if (cls == 5) for (int i = 0; i < N; ++i) out[i] = out[i] * S(3);
+    if (cls == 7) out[(salt >> 8) % N] = S(0);
+    if (cls == 8) out[(salt >> 8) % N] = ((salt >> 16) & 1) ? std::numeric_limits<S>::quiet_NaN() : std::numeric_limits<S>::infinity();
+    if (cls == 9) for (int i = 0; i < N; ++i) out[i] = out[i] * static_cast<S>(1e-30);
   }
   static void* make_views(void* const arena[kRegions]) { return new Views<G>(arena); }
   static void free_views(void* p) { delete static_cast<Views<G>*>(p); }
